@@ -305,7 +305,7 @@ fn fault_free_matches(re: &Regex, text: &str) -> Matches {
 fn model(text: &str, m: &Matches, n: usize, rep: &Rep) -> Option<Outcome<RepOut>> {
     // which prefix of the sequence does the call consume? items 0..=n (n > 0) or all (n = 0)
     let spans: Vec<&Item> = m.find.iter().collect();
-    let consumed = if n == 0 { spans.len() } else { spans.len().min(n + 1) };
+    let consumed = if n == 0 { spans.len() } else { spans.len().min(n.saturating_add(1)) };
     for it in &spans[..consumed] {
         match it {
             Item::Err(k) => return Some(Outcome::Err(k.clone())),
@@ -782,7 +782,8 @@ fn job(seed: u64, i: u64) -> (JobOut, Option<Violation>) {
             if m.find.iter().any(|i| matches!(i, Item::Panic(_))) || m.caps.iter().any(|c| matches!(c, Outcome::Panic(_))) {
                 continue; // C05's business
             }
-            let n = rng.below(4);
+            // limits 0..3 as in the property's quantifier, and now and then "practically unlimited"
+            let n = if rng.chance(1, 12) { *rng.pick(&[usize::MAX, usize::MAX / 2 + 1, 1 << 40]) } else { rng.below(4) };
             let rep = gen_rep(&mut rng, &re);
             let entry = match rng.below(8) {
                 0 => Entry::Replacen,
